@@ -148,7 +148,7 @@ PROPS["C12"] = {
     "explanation": "Guard-before-subtraction and decision-table rules on FitStatistics' constructor and fit_with_statistics: the "
                    "degrees-of-freedom role is N-(M+P) of the model counts, every overflow-checked subtraction of these operands is "
                    "dominated by the edge N > M+P, Err(Underdetermined) is produced only under N <= M+P, Ok requires a successful "
-                   "report, present coefficients and Ok statistics (release profile analysed in the thorough tier).",
+                   "report, present coefficients and Ok statistics (release profile analysed in the thorough tier); the matrix operations of the fit and of the statistics conform in shape for every N, M (incl. workspaces of in-place kernels), so no nalgebra shape panic pre-empts the Err.",
     "not_decided": ["numerical values of the statistics"],
 }
 
@@ -207,6 +207,9 @@ PROPS["C02"] = {
     "configs": BOTH,
     "rules": [
         ("R-NO-SHADOW", rp2.rule_no_shadow, {}),
+        # "in the shape of the observations": which accessors a problem offers is decided by its right-hand-side flag, which must
+        # survive the conversions and the fit result
+        ("R-FLAVOUR-FLAGS", rp2.rule_flavour_flags, {}),
         # the observations are stored exactly as supplied (the single-column setter reshapes N×1 in order)
         ("R-OBS-RESHAPE", rp2.rule_obs_reshape, {}),
         ("R-CLONE-IDENTITY", rp2.rule_clone_identity, {"group": ('problem',)}),
@@ -316,6 +319,8 @@ PROPS["C07"] = {
         ("R-CTOR-SIBLINGS", rp2.rule_ctor_siblings, {}),
         ("R-COEF-SOLVE", rp.rule_coef_solve, {}),
         ("R-SHAPES", shapes.rule_shapes, {"parts": ("set_params", "jacobian", "best_fit")}),
+        # a multi-column problem stays labelled as one through every conversion and inside the fit result
+        ("R-FLAVOUR-FLAGS", rp2.rule_flavour_flags, {}),
     ],
     "explanation": "Single- and multi-right-hand-side problems share one code path (no body uses the const generics MRHS/PAR as a value); single-rhs observations are only reshaped to N x 1; "
                    "coefficients, residuals and Jacobian columns are products with the data/coefficient matrix on the right (columns never mixed) and residuals and every Jacobian column use the same column-major flattening, so block s belongs to column s.",
@@ -408,7 +413,7 @@ PROPS["C15"] = {
     ],
     "explanation": "Typestate transition table of SeparableModelBuilder, obtained by evaluating every public method once per state with `self` a symbolic aggregate of that state (helpers, closures and self-delegation inlined, matches on known variants partially evaluated), equals the reviewed table: errors are sticky with payload unchanged, "
                    "derivatives attach only directly after a function, every other call first finalises the pending function; the function builder's recorded result is only ever overwritten with Err; "
-                   "each ModelBuildError is constructed only under its defining predicate and the model is built only after all validations passed.",
+                   "each ModelBuildError is constructed only under its defining predicate and the model is built only after all validations passed; names are stored verbatim (no trim/slice/case change between the caller's AsRef<str> view and the stored String); a derivative is stored under the model index of the named, listed parameter; no unguarded panic-capable site in the two builders.",
     "not_decided": ["the full iff over all call sequences (language membership over run-time data)", "which of several simultaneous defects is reported"],
 }
 PROPS["C18"] = {
@@ -426,7 +431,7 @@ PROPS["C18"] = {
         ("R-COEF-SOLVE", rp.rule_coef_solve, {}),
     ],
     "explanation": "build() decision table by edge dominance: each LevMarBuilderError only under its own condition and Ok only after data present, non-zero lengths, equal row counts and fitting weights; "
-                   "Ok(problem) passes LeastSquaresProblem::set_params(&mut problem, &model.params()) after the struct is built with an empty cache; each setter writes exactly its own field (frame rule), so call order only matters through last-write-wins; all constructors build the same empty builder; epsilon stored as |eps|.",
+                   "Ok(problem) passes LeastSquaresProblem::set_params(&mut problem, &model.params()) after the struct is built with an empty cache; each setter writes exactly its own field (frame rule), so call order only matters through last-write-wins; all constructors build the same empty builder; epsilon stored as |eps| and handed to the solve unmodified.",
     "not_decided": ["'already exposes residuals when the model evaluates there' relies on C01/C02/C09"],
 }
 
@@ -462,7 +467,7 @@ PROPS["C17"] = {
         ("R-COLUMN-ORDER", rm.rule_column_order, {}),
     ],
     "explanation": "The only call site of a stored user callable is the checking helper, which returns Ok(v) only under len(v) == len(x); its callers propagate with ?; in &mut self methods of SeparableModel no field write lies on a path to Err and the parameter write is dominated by the length check; "
-                   "allocation in eval/eval_partial_deriv is dominated by the parameter-count (and index) guards; Err(DerivativeIndexOutOfBounds) only under index >= number of parameters; results are allocated |x| x |functions|.",
+                   "allocation in eval/eval_partial_deriv is dominated by the parameter-count (and index) guards; Err(DerivativeIndexOutOfBounds) only under index >= number of parameters; results are allocated |x| x |functions| and no Ok return hands out a matrix that was not filled from the checked evaluations (unless there are no functions).",
     "not_decided": [],
 }
 
